@@ -289,7 +289,28 @@ pub fn copy_id(cp: u8) -> CopyId {
     }
 }
 
+thread_local! {
+    /// (store address, path, rendered value) -> what was written, so that repeated
+    /// sub-trees and files cost no further backend calls.
+    static WRITTEN: std::cell::RefCell<HashMap<(usize, String, String), Option<TreeValue>>> =
+        std::cell::RefCell::new(HashMap::new());
+}
+
 pub fn write_value(store: &Arc<Store>, path: &RepoPath, v: &V) -> Option<TreeValue> {
+    let key = (
+        Arc::as_ptr(store) as usize,
+        path.as_internal_file_string().to_owned(),
+        format!("{v:?}"),
+    );
+    if let Some(hit) = WRITTEN.with(|w| w.borrow().get(&key).cloned()) {
+        return hit;
+    }
+    let res = write_value_uncached(store, path, v);
+    WRITTEN.with(|w| w.borrow_mut().insert(key, res.clone()));
+    res
+}
+
+fn write_value_uncached(store: &Arc<Store>, path: &RepoPath, v: &V) -> Option<TreeValue> {
     Some(match v {
         V::File { c, x, cp } => {
             let id = store
@@ -308,12 +329,26 @@ pub fn write_value(store: &Arc<Store>, path: &RepoPath, v: &V) -> Option<TreeVal
             if sub.is_empty() {
                 return None;
             }
-            TreeValue::Tree(write_tree(store, path, sub))
+            TreeValue::Tree(write_tree_uncached(store, path, sub))
         }
     })
 }
 
 pub fn write_tree(store: &Arc<Store>, dir: &RepoPath, t: &T) -> TreeId {
+    if dir.is_root() {
+        // the root may be empty; memoise it like a directory value
+        let key = (Arc::as_ptr(store) as usize, String::new(), format!("root{t:?}"));
+        if let Some(Some(TreeValue::Tree(id))) = WRITTEN.with(|w| w.borrow().get(&key).cloned()) {
+            return id;
+        }
+        let id = write_tree_uncached(store, dir, t);
+        WRITTEN.with(|w| w.borrow_mut().insert(key, Some(TreeValue::Tree(id.clone()))));
+        return id;
+    }
+    write_tree_uncached(store, dir, t)
+}
+
+fn write_tree_uncached(store: &Arc<Store>, dir: &RepoPath, t: &T) -> TreeId {
     let mut entries = vec![];
     for (n, v) in t {
         let name = comp(*n);
